@@ -1315,6 +1315,8 @@ func checkC19(c *Check) {
 	importRules(c, "C01", c01Deliver, map[string]bool{"R1": true}, "R14")
 	c19ConfigNotRewritten(c, "R15")
 	c19ReturnOwnsConn(c, "R16")
+	c19ClosedNotReturned(c, "R17")
+	c19CommittedNotAborted(c, "R18")
 }
 
 // R8: the pool never waits on a bucket. A bucket channel is bounded (the idle-count limit, possibly 0); a send that
